@@ -47,6 +47,12 @@ def check_cfg(ctx, fx, cfg):
     # the loops' graceful end calls — a notifier that also reports on drop would turn every failure into a clean stop
     if cfg == "tokio":
         core.shared(ctx, "R06.12", _c04.check_notifier, ctx, fx, "R06.12")
+    # R06.13 (shared with C17) "join yields None" — for a failed actor, every time, and never a panic in the joiner: the join protocol
+    # takes the runtime's handle out of the slot before it waits on it (a finished handle left in the slot is polled again by the
+    # next join, which panics inside the task that merely looked at the dead actor's outcome)
+    if cfg != "bare":
+        from props import c17 as _c17
+        core.shared(ctx, "R06.13", _c17.check_join, ctx, fx, cfg, "R06.13")
     # the loop future is handed to the spawner as is (not wrapped in something that catches its failure)
     # R06.2 Context::drop aborts timers
     ab = timers.aborters(ctx, fx)
